@@ -15,6 +15,10 @@
    forgets a cached VALID verdict); repaired functions are
    kept as `_pinned` definitions where a `_pinned_refuted` theorem uses them.
 
+   Key handlers (named commands previous-/next-/beginning-of-/end-of-history,
+   vi k/j/<n>G/up/down, emacs c-p/c-n, basic up/down) with KeyPressEvent.arg
+   are modelled as the Buffer call they make (handler_op).
+
    Outside the model: completion state (assumed absent), read-only buffers,
    events, undo stack, yank-nth-arg/yank-last-arg, the search algorithm (only
    its landing), thread-level asynchrony (a scheduled validate-while-typing run
@@ -547,6 +551,50 @@ Fixpoint run_validator (rules : list (vcond * vpos)) (t : str) (cp : Z) : option
   end.
 
 (* ---------------------------------------------------------------------- *)
+(* Key handlers with a numeric argument (round 6).  KeyPressEvent._arg is None,
+   "-" or a decimal numeral (possibly with a leading "-"); KeyPressEvent.arg:
+       if self._arg == "-": return -1
+       result = int(self._arg or 1)
+       if int(result) >= 1000000: result = 1                                  *)
+Inductive karg := ANone | AMinus | ANum (z : Z).
+Definition event_arg (a : karg) : Z :=
+  match a with
+  | ANone => 1
+  | AMinus => -1
+  | ANum z => if 1000000 <=? z then 1 else z
+  end.
+
+(* The Buffer call each history-related key handler makes, as an operation:
+   named_commands previous-history (1), next-history (2), beginning-of-history
+   (3), end-of-history (4); vi navigation mode k (5), j (6), <n>G (7, bound
+   only when an argument is present), up/c-p (8), down/c-n (9); emacs c-p (10),
+   c-n (11: auto_down() - the argument is ignored); basic up (12), down (13). *)
+Definition handler_op (h : Z) (a : karg) : option op :=
+  let n := event_arg a in
+  if h =? 1 then Some (OBack n)
+  else if h =? 2 then Some (OFwd n)
+  else if h =? 3 then Some (OGoto 0)
+  else if h =? 4 then Some OEnd
+  else if h =? 5 then Some (OAutoUp n true)
+  else if h =? 6 then Some (OAutoDown n true)
+  else if h =? 7 then match a with ANone => None | _ => Some (OGoto (n - 1)) end
+  else if h =? 8 then Some (OAutoUp n false)
+  else if h =? 9 then Some (OAutoDown n false)
+  else if h =? 10 then Some (OAutoUp n false)
+  else if h =? 11 then Some (OAutoDown 1 false)
+  else if h =? 12 then Some (OAutoUp n false)
+  else if h =? 13 then Some (OAutoDown n false)
+  else None.
+
+Definition dec_karg (x : sx) : option karg :=
+  match x with
+  | L [] => Some ANone
+  | L [A 0] => Some AMinus
+  | L [A 1; A z] => Some (ANum z)
+  | _ => None
+  end.
+
+(* ---------------------------------------------------------------------- *)
 (* Wire format *)
 Definition dec_op (x : sx) : option op :=
   match x with
@@ -579,6 +627,7 @@ Definition dec_op (x : sx) : option op :=
   | L [A 23; A i; A p] => Some (OJump i p)
   | L [A 25; A b] => Some (OSelect (b =? 1))
   | L [A 26] => Some OThread
+  | L [A 27; A h; a] => match dec_karg a with Some a' => handler_op h a' | None => None end
   | _ => None
   end.
 
